@@ -224,9 +224,9 @@ namespace occa {
           outerCount -= isOuter;
           innerCount -= !isOuter;
 
-          const int index = (isOuter
-                             ? outerCount
-                             : innerCount);
+          // Same index as the device side (replaceOccaFor): the explicit
+          //   @outer(n) / @inner(n) index when there is one
+          const int index = oklForSmnt.oklLoopIndex();
           token_t *source = pathSmnt.source;
           const std::string &name = (isOuter
                                      ? "outer"
